@@ -1,12 +1,14 @@
 \* The step machine of cob::get, thorough: root + 3 changes, two namespaces.
 CONSTANTS
   Atomic = TRUE
+  SingleInPlace = FALSE
   DropDetached = TRUE
   Namespace = {1, 2}
   M = 3
   MaxTs = 2
   Classes = {"ok", "needs", "rejectLater"}
   MaxBad = 1
+  FullCauses = 1
   AllowDetached = FALSE
   Emit = FALSE
   EmitMod = 1
